@@ -54,7 +54,10 @@ def step (d : DSt) (w : List String) : DSt × List String :=
     | none => (d, ["bad-op"])
   | "expand" :: sel :: paths =>
     -- expand <selected package name> <walked module paths relative to the package, '/'-separated>…
-    (d, [" ".intercalate ((namesUnder (dotted sel) (paths.map fun p => (p.splitOn "/").filter (· ≠ ""))).map (".".intercalate ·))])
+    -- module files, then `|`, then sub-package directories
+    let (files, pkgs) := paths.span (· ≠ "|")
+    let split := fun (p : String) => (p.splitOn "/").filter (· ≠ "")
+    (d, [" ".intercalate ((namesToProfile (dotted sel) (files.map split) ((pkgs.drop 1).map split)).map (".".intercalate ·))])
   | ["reset"] => ({}, [])
   | _ => (d, ["bad-op"])
 
